@@ -39,11 +39,21 @@ pub static mut ORACLE: Oracle = Oracle {
 impl Huffman {
     /// stand-in for `compress_impl_unsafe`: arbitrary length <= ORACLE_K and arbitrary bytes, or
     /// "does not fit"; remembers (plaintext, ciphertext) when the plaintext is <= 16 bytes.
-    pub fn verif_compress_oracle(&self, input: &[u8], buffer: &mut [u8], _bug: bool) -> Result<usize, ()> {
+    pub fn verif_compress_oracle(&self, input: &[u8], buffer: &mut [u8], bug: bool) -> Result<usize, ()> {
+        self.verif_compress_oracle_impl(input, buffer, bug, false)
+    }
+    /// the same oracle for callers that hand in a buffer no code word sequence of the (tiny) input
+    /// can overflow (demo writer: 64 KiB): the "does not fit" outcome is excluded (the real table's
+    /// code words are at most 15 bits, C07 table lemma, so <= 2 bytes per input byte + 2)
+    pub fn verif_compress_oracle_fits(&self, input: &[u8], buffer: &mut [u8], bug: bool) -> Result<usize, ()> {
+        assert!(buffer.len() >= 2 * input.len() + 2);
+        self.verif_compress_oracle_impl(input, buffer, bug, true)
+    }
+    fn verif_compress_oracle_impl(&self, input: &[u8], buffer: &mut [u8], _bug: bool, must_fit: bool) -> Result<usize, ()> {
         unsafe {
             ORACLE.compress_calls += 1;
             let fits: bool = kani::any();
-            if !fits {
+            if !fits && !must_fit {
                 return Err(());
             }
             let c: usize = kani::any();
@@ -404,6 +414,56 @@ fn c07_node_symbol_repr_roundtrip() {
     kani::assume(bits >> 24 == 0);
     let s = SymbolRepr { bits: bits, num_bits: nb };
     assert!(s.to_node().to_symbol_repr() == s);
+}
+
+fn ref_push(out: &mut [u8; 12], nbits: &mut usize, r: SymbolRepr) {
+    let mut i = 0;
+    while i < r.num_bits as usize {
+        if (r.bits >> i) & 1 != 0 {
+            out[*nbits / 8] |= 1 << (*nbits % 8);
+        }
+        *nbits += 1;
+        i += 1;
+    }
+}
+
+#[kani::proof]
+#[kani::unwind(27)]
+fn c07_encoder_any_code_lengths() {
+    // The encoder for tables other than the built-in one (Huffman::from_frequencies allows code words
+    // of up to 24 bits; the built-in table stops at 15): symbols 0 and 1 get *symbolic* code words
+    // (any bits, any length 1..=24), EOF keeps its own. Compressing [0, 1] puts the second code word
+    // at every bit offset; the output must be exactly the concatenation of the three code words,
+    // LSB first, zero padded, and the predicted length must be exact.
+    let mut h = HUF;
+    let b0: u32 = kani::any();
+    let n0: u8 = kani::any();
+    let b1: u32 = kani::any();
+    let n1: u8 = kani::any();
+    kani::assume(1 <= n0 && n0 <= 24 && 1 <= n1 && n1 <= 24);
+    kani::assume(b0 >> n0 == 0 && b1 >> n1 == 0);
+    let r0 = SymbolRepr { bits: b0, num_bits: n0 };
+    let r1 = SymbolRepr { bits: b1, num_bits: n1 };
+    h.nodes[0] = r0.to_node();
+    h.nodes[1] = r1.to_node();
+    let eof = h.get_node(EOF).unwrap_err();
+    let input = [0u8, 1u8];
+    let mut out = [0u8; 12];
+    let n = h.compress_impl_unsafe(&input[..], &mut out[..], false).unwrap();
+    let mut reference = [0u8; 12];
+    let mut nbits = 0usize;
+    ref_push(&mut reference, &mut nbits, r0);
+    ref_push(&mut reference, &mut nbits, r1);
+    ref_push(&mut reference, &mut nbits, eof);
+    assert!(n == (nbits + 7) / 8);
+    assert!(n == h.compressed_len(&input[..]));
+    let mut i = 0;
+    while i < 12 {
+        assert!(out[i] == if i < n { reference[i] } else { 0 });
+        i += 1;
+    }
+    kani::cover!(n0 == 24 && n1 == 24);
+    kani::cover!(n0 == 3 && n1 >= 17);
 }
 
 impl Huffman {
